@@ -58,6 +58,25 @@ impl System {
         }
     }
 
+    /// Disconnects every client that is logged in as the given user, so that each of them
+    /// also leaves the consumer groups it had joined (the partitions are handed to the remaining members).
+    pub async fn delete_clients_for_user(&self, user_id: u32) {
+        let clients = self.client_manager.read().await.get_clients();
+        let mut client_ids = Vec::new();
+        for client in clients.iter() {
+            let client = client.read().await;
+            if let Some(client_user_id) = client.user_id {
+                if client_user_id == user_id {
+                    client_ids.push(client.session.client_id);
+                }
+            }
+        }
+
+        for client_id in client_ids {
+            self.delete_client(client_id).await;
+        }
+    }
+
     pub async fn get_client(
         &self,
         session: &Session,
